@@ -37,7 +37,7 @@ REQUIRED_STATS = ['activations', 'owner_checked', 'exceptions_observed', 'inject
 
 
 def n_cases(tier):
-    return 1200 if tier == 'quick' else 12000
+    return 1200 if tier == 'quick' else 2400
 
 
 def make_case(seed, index, tier):
